@@ -959,6 +959,21 @@ def canon_value(v) -> str:
     return f'{type(v).__name__}:{v}'
 
 
+def trig_f04g(src: str) -> bool:
+    """trigger of finding F04g: the source has a DoubleLiteral whose Python repr has no exponent (`1.5e3` ->
+    `1500.0`, a DecimalLiteral) or a DecimalLiteral without fraction digits (`2.` -> `2`, an IntegerLiteral)"""
+    import re
+    text = re.sub(r"'[^']*'|\"[^\"]*\"", ' ', src)
+    for m in re.finditer(r'(?<![\w.])(?:\d+\.?\d*|\.\d+)(?:[eE][+-]?\d+)?', text):
+        lit = m.group()
+        if 'e' in lit.lower():
+            if 'e' not in repr(float(lit)):
+                return True
+        elif lit.endswith('.'):
+            return True
+    return False
+
+
 def roundtrip(run: Run, ver: str, src: str, tok, dumped: str) -> None:
     st = run.stats
     try:
@@ -971,7 +986,8 @@ def roundtrip(run: Run, ver: str, src: str, tok, dumped: str) -> None:
     st.count('roundtrip:compared')
     if again != dumped:
         run.disagree(Disagreement({'version': ver, 'source': src, 'unparsed': src2}, again, None, dumped,
-                                  what='source-roundtrip', site='XPathToken.source'))
+                                  what='source-roundtrip', site='XPathToken.source',
+                                  tags=['F04g'] if trig_f04g(src) else []))
         return
     if tok2 is not None and st.hist.get('roundtrip:evaluated', 0) < run.scale(400, 4000):
         v1, v2 = evaluate(ver, tok), evaluate(ver, tok2)
@@ -1096,7 +1112,7 @@ GENERAL_CORPUS = {
            "a/comment() | b/node()", "@*[name() != 'id'] and (b or c)", "ancestor-or-self::*[1]/following-sibling::node()"],
     '20': ["for $x in (1, 2, 3), $y in 4 to 6 return $x * $y", "if (a = 1) then 'y' else ('n', 0)", "some $x in a satisfies $x/b = 3 and every $y in c satisfies $y",
            "a instance of element()+", "(1, 2)[. gt 1] treat as xs:integer+", "'3' cast as xs:integer? + 1", "a castable as xs:date", "a union b intersect c except d",
-           "xs:dateTime('2000-01-01T00:00:00') - xs:dayTimeDuration('P1D')", "a/element(b)/attribute(c)/text()", "1 to 3, 5 idiv 2, -(4)", "a is b or a << b or a >> b",
+           "xs:dateTime('2000-01-01T00:00:00') - xs:dayTimeDuration('P1D')", "a/element(b)/attribute(c)/text()", "1 to 3, 5 idiv 2, -(4)", "1.5e3 + .5 - 2.", "a/attribute(b, xs:string) | attribute::c", "a is b or a << b or a >> b",
            "$v eq 1 (: comment :) and $w ne 2", "child::element(*, xs:string)", "empty(()) and exists((1))", "(: start :) a (: mid (: nested :) :) / b"],
     '30': ["let $x := 1, $y := $x + 1 return $x || '-' || $y", "a ! (b + 1) ! string()", "function($a as xs:integer) as xs:integer { $a + 1 }(2)",
            "fn:abs#1(-3)", "Q{http://www.w3.org/2005/xpath-functions}abs(-1)", "(1 to 5) ! (. * 2)", "math:pi() * 2", "$f(1, ?)(2)",
@@ -1309,7 +1325,7 @@ def sym_toks(V: VInfo, spec: list) -> list:
 
 SEED_CORPUS = [
     ('10', ['1', '=', '2', '=', '3']), ('10', ['1', '<', '2', '=', '3']), ('10', ['1', '=', '2', '<', '3']),   # F04a
-    ('10', ['-', 'n1', '|', 'n2']), ('10', ['+', 'n1']), ('10', ['(', 'n1', ')', '/', 'n2']),                     # fixed F04c, F04b, F04d
+    ('10', ['-', 'n1', '|', 'n2']), ('10', ['+', 'n1']), ('10', ['(', 'n1', ')', '/', 'n2']),                     # fixed F04c, F04b, fixed F04d (1.0)
     ('10', ['n1', 'or', 'n2', 'and', 'n3']), ('10', ['n1', '-', 'n2', '-', 'n3']), ('10', ['n1', '/', 'n2', '[', '1', ']']),
     ('20', ['n1', '=', 'n2', 'eq', 'n3']), ('20', ['n1', '<<', 'n2', '<<', 'n3']),                               # F04b
     ('20', ['1', 'cast', 'T0', 'cast', 'T0']), ('20', ['n1', 'instance', 'T0', 'treat', 'T1']),
@@ -1565,6 +1581,22 @@ EXPECTED = [
     ('20', '-a intersect b', '(intersect (- (a)) (b))'), ('20', '-a except b', '(except (- (a)) (b))'),
     ('20', '-a/b', '(- (/ (a) (b)))'), ('20', '-a[1]', '(- ([ (a) (1)))'), ('20', '- -a * b', '(* (- (- (a))) (b))'),
     ('30', '-a ! b', '(- (! (a) (b)))'), ('31', '-a => string()', '(=> (- (a)) (string) ())'),
+    # arrow operator (3.1 [29] ArrowExpr ::= UnaryExpr ( "=>" ArrowFunctionSpecifier ArgumentList )*, below CastExpr)
+    ('31', '1 cast as xs:string => upper-case()', '(=> (cast (1) (: (xs) (string))) (upper-case) ())'),
+    ('31', 'a => string() => upper-case()', '(=> (=> (a) (string) ()) (upper-case) ())'),
+    ('31', '1 => $f(2)', '(=> (1) ($ (f)) (2))'), ('31', "'a' => fn:upper-case()", "(=> ('a') (: (fn) (upper-case)) ())"),
+    ('31', '(1, 2) => (function($x) { count($x) })()', '(=> (, (1) (2)) (function ($ (x))) ())'),
+    ('31', 'a = b => string()', '(= (a) (=> (b) (string) ()))'), ('31', 'a || b => string()', '(|| (a) (=> (b) (string) ()))'),
+    ('31', '- 1 => abs() cast as xs:integer', '(cast (=> (- (1)) (abs) ()) (: (xs) (integer)))'),
+    ('31', 'a ! b => count()', '(=> (! (a) (b)) (count) ())'),
+    # placeholder, sequence types with occurrence / map / array tests, attribute axis and kind test, literals
+    ('31', '$f(?, 1)', '(($ (f)) (, (?) (1)))'), ('31', 'a instance of element()?', '(instance (a) (element))'),
+    ('31', '. instance of map(*)', '(instance (.) (map (*)))'),
+    ('31', '. instance of array(xs:integer)', '(instance (.) (array (: (xs) (integer))))'),
+    ('31', '. instance of map(xs:string, item()*)', '(instance (.) (map (: (xs) (string)) (item)))'),
+    ('20', 'attribute::a', '(attribute (a))'), ('20', 'a/attribute(b, xs:string)', '(/ (a) (attribute (b) (: (xs) (string))))'),
+    ('20', 'some $x in a, $y in b satisfies $x = $y', '(some ($ (x)) (a) ($ (y)) (b) (= ($ (x)) ($ (y))))'),
+    ('30', 'n1(1)', 'ERR:XPST0017'),
     ('10', '-a | b', '(- (| (a) (b)))'), ('10', '-a * b', '(* (- (a)) (b))'), ('10', '-a div b', '(div (- (a)) (b))'),
 ]
 
